@@ -330,6 +330,9 @@ def gen_case(seed, idx, tier):
     b = Arg("i0", "n", "num")
     b.init = "5"
     cfg.args.append(b)
+    q = Arg("b0", "q", "quiet")
+    q.init = "0"
+    cfg.args.append(q)
     probe = rng.random() < 0.2 and kind in ("ca", "ar", "tu", "bs", "vb", "db")
     n = rng.choice([1, 2, 2, 3, 4, 5, 7, 10])
     if kind in CAPACITY:
@@ -378,6 +381,23 @@ def gen_case(seed, idx, tier):
             bval = 5
         c.meta["cuts"].append((cut, words, exp_cut, bval))
         c.add("c06", lambda sid, w=words: argh.scenario_text(sid, "cut", cfg, w))
+    # a value-less flag ends a multi-value list: the free value behind it belongs to the positional argument
+    # (or is an unknown argument when there is none), never to the container
+    c.meta["tails"] = []
+    if a.multi and verdict == "ok" and c.meta["cuts"] and rng.random() < 0.5:
+        cut, words, exp_cut, bval = c.meta["cuts"][rng.randrange(len(c.meta["cuts"]))]
+        if "-n" not in words:
+            free = rng.choice(["4", "17", "zz", "x1"])
+            with_pos = rng.random() < 0.6
+            cfg2 = Config(cfg.flags)
+            cfg2.args = list(cfg.args)
+            if with_pos:
+                pa = Arg("s9", None, None, spec="-")
+                pa.init = "none"
+                cfg2.args.append(pa)
+            w2 = words + [rng.choice(["-q", "--quiet"]), free]
+            sid = c.add("c06", lambda sid, w=w2: argh.scenario_text(sid, "flag-ends-list", cfg2, w))
+            c.meta["tails"].append((sid, w2, exp_cut, free, with_pos))
     return c
 
 
@@ -392,7 +412,7 @@ def judge(c, results, rep):
     if c.meta["probe"]:
         rep.stat("overflow_probes")
     finals = []
-    for (sid, text), (cut, words, exp_cut, bval) in zip(c.scenarios, c.meta["cuts"]):
+    for (sid, text), (cut, words, exp_cut, bval) in zip(c.scenarios[:len(c.meta["cuts"])], c.meta["cuts"]):
         r = results[sid]
         npieces = len(cut)
         if len(c.meta["elems"]) >= 2 and npieces >= 2:
@@ -422,6 +442,21 @@ def judge(c, results, rep):
         other = argh.parse_dump("i0", r.slots.get("i0", "?"))
         if other != bval:
             rep.viol("%s|other-destination-changed" % kind, "i0=%r expected %r argv=%r" % (other, bval, words), [text])
+    texts = dict(c.scenarios)
+    for sid, w2, exp_cut, free, with_pos in c.meta.get("tails", []):
+        r = results[sid]
+        rep.stat("flag_ends_list.%s" % ("positional" if with_pos else "no-positional"))
+        if with_pos:
+            if r.status != "ok":
+                rep.viol("%s|flag-ends-list|rejected" % kind, "%s %s argv=%r" % (r.etype, r.ewhat, w2), [texts[sid]])
+            else:
+                got = canon(a, r.slots.get(a.slot, "?"))
+                pos = argh.parse_dump("s9", r.slots.get("s9", "?"))
+                if got != exp_cut or pos != free:
+                    rep.viol("%s|flag-ends-list|free-value-misrouted" % kind, "container %r (expected %r), positional %r (expected %r) argv=%r" % (
+                        got, exp_cut, pos, free, w2), [texts[sid]])
+        elif r.status == "ok":
+            rep.viol("%s|flag-ends-list|stray-value-accepted" % kind, "container %r argv=%r" % (r.slots.get(a.slot), w2), [texts[sid]])
     if len(finals) >= 2:
         rep.stat("cut_equivalence_checked")
         if any(f[0] != finals[0][0] for f in finals[1:]):
